@@ -86,8 +86,9 @@ def bounds(tier):
 def plan(tier, seed):
     chunks = []
     for i in range(len(VARS)):
-        chunks.append({'k': 'pairs', 'first': i, 'creators': ['O'] if tier == 'quick' else CREATORS})
+        chunks.append({'k': 'pairs', 'first': i, 'creators': ['O', 'B', 'H', 'x'] if tier == 'quick' else CREATORS})
     chunks.append({'k': 'repeat'})
+    chunks.append({'k': 'cli'})
     chunks.append({'k': 'limit'})
     for t in ('UD', 'ED', 'DH', 'ZZ'):
         chunks.append({'k': 'sweep', 't': t})
@@ -201,6 +202,8 @@ def run_chunk(chunk):
             b = byname['UDhex'] if name != 'UDhex' else byname['MT']
             _do(res, {'creator': 'O', 'sections': [a, b, a, b]})
             _do(res, {'creator': 'O', 'sections': [a, a, b, a]})
+    elif k == 'cli':
+        _cli(res, byname)
     elif k == 'limit':
         for name in ('UD1', 'MT', '?ZZ', 'LP0.1', 'EH0', 'PS+fru'):
             _do(res, {'creator': 'O', 'sections': [byname[name]] * 253})
@@ -219,3 +222,36 @@ def run_chunk(chunk):
             _do(res, {'creator': 'O', 'sections': [s, follow]}, sample_every=50)
             _do(res, {'creator': 'O', 'sections': [follow, s]}, sample_every=50)
     return res
+
+
+def _cli(res, byname):
+    """observe_at #2: `peltool.py -f <file>` prints the same document parsePEL returns (in-process driver + real executable)."""
+    import os
+    import tempfile
+    from mc import clidrv
+    names = list(byname)
+    n_ok = 0
+    with tempfile.TemporaryDirectory(prefix='c01_', dir=clidrv.scratch_root()) as d:
+        for i in range(0, len(names) - 2, 2):
+            secs = [byname[names[i]], byname[names[i + 1]], byname[names[i + 2]]]
+            case = {'creator': 'O', 'sections': secs, 'cli': True}
+            b = pelgen.encode_pel(pelgen.pel_from_spec({'creator': 'O', 'sections': secs}))
+            path = os.path.join(d, 'pel%02d' % i)
+            with open(path, 'wb') as f:
+                f.write(b)
+            r = decode.parse(b)
+            core.arm(30)
+            m = clidrv.run_main(['-f', path, '-E'])
+            core.disarm()
+            ok = r['kind'] == 'doc' and m.status == 0 and m.stdout == r['text'] + '\n'
+            res.case(nontrivial_key=json.dumps(_brief(case)), outcome='cli:ok' if ok else 'cli:differs', sample=None)
+            if not ok:
+                res.violation('C01:cli-route', '-f prints a different document than parsePEL returns for sections %s' %
+                              [names[i], names[i + 1], names[i + 2]], {'creator': 'O', 'sections': secs})
+            if i % 10 == 0:
+                rc, so, se = clidrv.run_subprocess(['-f', path, '-E'])
+                if (rc, so) != (m.status, m.stdout):
+                    res.violation('C01:conformance', 'real executable and in-process driver disagree on -f', {'creator': 'O', 'sections': secs})
+                else:
+                    n_ok += 1
+    res.extra['traces_validated_against_impl'] = n_ok
